@@ -3,8 +3,9 @@
    (Generated/Consts.lean, Generated/Timing.lean) on every run, or is a timeline in Model/Timing.lean
    composed from those. All statements quantify over every `Nat` height / expiry / delta. -/
 import LdkModel.Model.Timing
+import LdkModel.Proofs.NodeStep
 namespace Ldk.C08
-open Ldk Ldk.Timing
+open Ldk Ldk.Timing Ldk.NodeStep
 
 /-- unfold the generated predicates and timelines, turn constants into numerals, close by `omega` -/
 macro "timing_omega" : tactic => `(tactic| (
@@ -169,6 +170,112 @@ theorem early_failback_in_time (inCltv : Nat) (hh : inCltv < 2 ^ 31) (hc : LATEN
     earlyFailBack (inCltv - LATENCY_GRACE_PERIOD_BLOCKS) inCltv = true := by
   simp only [earlyFailBack, satAdd32]
   split <;> timing_omega
+
+/-! ## The height-driven glue (`Model/NodeStep.lean`): manager + monitor actions per delivered block -/
+
+/-- Census of FundedChannel::do_best_block_updated (regenerated per exit from the Rust text): every `Ok` exit taken after
+    the holding-cell scan returns the scanned-out list itself in the timed-out-HTLC position. -/
+theorem ok_exit_returns_timed_out (x : BbuExit) (hok : x.isOk = true) : x.returnsTimedOut = true := by
+  cases x <;> first | rfl | exact absurd hok (by decide)
+
+/-- Whatever else happens in the block (channel_ready, splice_locked, nothing): an HTLC that leaves the holding cell by
+    timeout is failed backwards in the same call — for every height, every expiry, every `Ok` exit. -/
+theorem holding_cell_timeout_always_failed_back (s : St) (h : Nat) (x : BbuExit) (hok : x.isOk = true)
+    (hp : s.up = .pending) (hc : Act.cellTimeout ∈ (mgrBlock s h x).2) :
+    Act.failBack ∈ (mgrBlock s h x).2 ∧ (mgrBlock s h x).1.up = .failed ∧ (mgrBlock s h x).1.inCell = false := by
+  have hr := ok_exit_returns_timed_out x hok
+  have hcc := (mgr_cell_iff s h x).1 hc
+  unfold mgrBlock
+  simp only [hcc.1, hcc.2, Bool.and_self, if_true, hr, hok]
+  refine ⟨?_, ?_, ?_⟩
+  · rw [failUp_acts]; simp [hp]
+  · exact failUp_up _ hp
+  · exact (failUp_rest _).1
+
+/-- The same for a whole holding cell: every entry that does not survive the scan is in the list the exit hands to
+    do_chain_event (which fails each of its entries backwards with `chainEventHoldingCellReason`). -/
+theorem holding_cell_scan_loses_nothing (h : Nat) (x : BbuExit) (hok : x.isOk = true) (cell : List (Nat × Nat))
+    (e : Nat × Nat) (he : e ∈ cell) (hgone : e ∉ cellKept h cell) : e ∈ bbuReturn x (cellTimedOut h cell) := by
+  simp only [bbuReturn, ok_exit_returns_timed_out x hok, if_true, cellTimedOut, cellKept, List.mem_filter] at *
+  refine ⟨he, ?_⟩
+  cases hto : holdingCellTimedOut h e.2
+  · exact absurd ⟨he, by simp [hto]⟩ hgone
+  · rfl
+
+/-- The scan fires exactly on the translated test, at the delivered height (whatever height was delivered before). -/
+theorem holding_cell_timeout_iff (s : St) (h : Nat) (x : BbuExit) :
+    Act.cellTimeout ∈ (mgrBlock s h x).2 ↔ (s.inCell = true ∧ s.outCltv ≤ h + LATENCY_GRACE_PERIOD_BLOCKS) := by
+  rw [mgr_cell_iff]
+  simp [holdingCellTimedOut]
+
+/-- The `Err` exit "funding transaction was un-confirmed" is only taken at a height below the one at which the HTLC
+    was admitted for forwarding (the funding had its confirmations then): nothing can be scanned out in that call, so
+    the list it drops is empty. -/
+theorem unconfirm_exit_has_nothing_timed_out (h0 h out inc delta : Nat)
+    (hok : checkIncomingHtlcCltv h0 out inc delta = .ok ()) (hle : h ≤ h0) : holdingCellTimedOut h out = false := by
+  have := never_forward_too_soon h0 out inc delta hok
+  timing_omega
+
+/-- the reason with which do_chain_event fails holding-cell timeouts backwards is the forwarding rule's own -/
+theorem holding_cell_fail_reason : chainEventHoldingCellReason = .cLTVExpiryTooSoon := by decide
+
+/-- (c) The downstream monitor fails the upstream HTLC back ONLY when the confirmed HTLC-timeout is buried
+    (`ANTI_REORG_DELAY` confirmations at the delivered height) or when the pre-emptive rule fires on a channel that no longer
+    accepts updates (closed before, or by this very block's broadcast) — never earlier, at any delivered height, from any state. -/
+theorem failback_only_when_buried_or_preemptive (s : St) (h : Nat) (c t : Bool)
+    (hf : Act.failBack ∈ (monDown s h c t).2) :
+    (∃ tc, (monTxs s h c t).timeoutConf = some tc ∧ h + 1 ≥ tc + ANTI_REORG_DELAY) ∨
+    (earlyFailBack h s.inCltv = true ∧ (s.downOpen = false ∨ Act.broadcastDown ∈ (monDown s h c t).2)) := by
+  rcases monDown_failback s h c t hf with ⟨tc, h1, h2⟩ | ⟨h1, h2⟩
+  · exact Or.inl ⟨tc, h1, (failback_only_when_buried h tc none h2).1⟩
+  · exact Or.inr ⟨h1, by rw [← (monTxs_fields s h c t).1]; exact h2⟩
+
+/-- (d) Jumps: from ANY state (so whatever height was delivered before, however far below), the first processed height
+    at or above `expiry + grace` broadcasts the holder commitment in that very step, and no processed height below does. -/
+theorem jump_fires_at_first_delivered_height (s : St) (h : Nat) (hl : s.outLive = true) (hn : s.downBroadcast = none) :
+    Act.broadcastDown ∈ (monScan s h).2 ↔ outboundTrigger s.outCltv ≤ h := by
+  rw [monScan_fires_iff s h hl hn, outbound_trigger_iff]
+
+/-- (b) The node never sits past `cltv_expiry − CLTV_CLAIM_BUFFER` on an unclaimed inbound HTLC whose preimage it knows:
+    any processed height at or above that trigger (jump or not) leaves the upstream commitment broadcast. -/
+theorem never_waits_past_claim_buffer (s : St) (h : Nat) (hp : s.preimage = true) (hu : s.up = .pending)
+    (hh : inboundTrigger s.inCltv ≤ h) : (monUp s h).1.upBroadcast.isSome = true :=
+  monUp_fires s h hp hu ((inbound_trigger_iff h s.inCltv true).2 ⟨rfl, hh⟩)
+
+/-- (a) A preimage that arrives while the downstream HTLC is still claimable off-chain (before the node's own on-chain
+    trigger `outCltv + grace`) is passed upstream at once if the upstream peer answers; otherwise the block after its
+    arrival is still at or below the upstream on-chain trigger (nothing has been missed, for every delta ≥ the minimum),
+    and the trigger leaves both confirmation windows before the upstream expiry. -/
+theorem preimage_in_time_claims_upstream (s : St) (p delta : Nat) (hd : MIN_CLTV_EXPIRY_DELTA ≤ delta)
+    (hin : s.outCltv + delta ≤ s.inCltv) (harr : p < outboundTrigger s.outCltv)
+    (hnew : s.preimage = false) (hcell : s.inCell = false) (hu : s.up = .pending) :
+    (s.upResponsive = true → Act.claimOffchain ∈ (onPreimage s).2 ∧ (onPreimage s).1.up = .claimed) ∧
+    (onPreimage s).1.preimage = true ∧
+    p + 1 ≤ inboundTrigger s.inCltv ∧ inboundTrigger s.inCltv + 2 * MAX_BLOCKS_FOR_CONF ≤ s.inCltv := by
+  refine ⟨fun hr => ?_, ?_, ?_, ?_⟩
+  · simp [onPreimage, hnew, hcell, hu, hr]
+  · unfold onPreimage; simp only [hnew, hcell, Bool.or_self, Bool.false_eq_true, if_false]; split <;> rfl
+  · timing_omega
+  · timing_omega
+
+/-- Restart: re-announcing the current best height changes nothing and emits nothing (the monitor ignores it, the
+    manager's scan is idempotent). -/
+theorem reannounce_is_noop (s : St) (h : Nat) (x : BbuExit) (c t : Bool) (hb : s.monBest = h)
+    (hc : (s.inCell && holdingCellTimedOut h s.outCltv) = false) : nodeStep s (.block h x c t) = (s, []) :=
+  reannounce_noop s h x c t hb hc
+
+example : (run { inCltv := 188, outCltv := 140, monBest := 100, inCell := false, outLive := true }
+    [.block 142 .plain false false, .block 150 .plain false false, .block 151 .plain true false,
+     .block 152 .plain false true, .block 157 .plain false false]).2
+    = [(150, .broadcastDown), (150, .broadcastTimeout), (157, .failBack)] := by decide
+example : (run { inCltv := 188, outCltv := 140, monBest := 100, inCell := false, outLive := true, upResponsive := false }
+    [.preimage, .block 151 .plain false false, .block 153 .plain false false]).2 = [(153, .broadcastUp)] := by decide
+
+example : BbuExit.splice.isOk = true ∧ BbuExit.splice.returnsTimedOut = true := by decide
+example : (mgrBlock { inCltv := 200, outCltv := 103, monBest := 99, inCell := true, outLive := false } 100 .splice).2
+    = [.cellTimeout, .failBack] := by decide
+example : (mgrBlock { inCltv := 200, outCltv := 104, monBest := 99, inCell := true, outLive := false } 100 .splice).2 = [] := by decide
+example : holdingCellTimedOut 100 103 = true ∧ holdingCellTimedOut 100 104 = false := by decide
 
 -- Non-vacuity: concrete heights meeting every hypothesis used above.
 example : finalExpiryTooSoon 100 141 = false ∧ claimDeadline 141 = 102 := by decide
